@@ -238,6 +238,23 @@ def reference_loss(agent, task, batch):
             qn = torch.min(agent.critic_target_1(no, na), agent.critic_target_2(no, na))
             y = rew + (1 - dn) * g * qn
             return float(F.mse_loss(agent.critic_1(o, act), y) + F.mse_loss(agent.critic_2(o, act), y))
+        if algo in ("MADDPG", "MATD3"):
+            obs, act, rew, nobs, dn = batch
+            o, no = agent.preprocess_observation(obs), agent.preprocess_observation(nobs)
+            ids = agent.agent_ids
+            na = torch.cat([agent.actor_targets[i](no[a]) for i, a in enumerate(ids)], dim=1)
+            so, sno = agent.stack_critic_observations(o), agent.stack_critic_observations(no)
+            sa = torch.cat([act[a] for a in ids], dim=1)
+            out = []
+            for i, a in enumerate(ids):
+                if algo == "MADDPG":
+                    y = rew[a] + (1 - dn[a]) * g * agent.critic_targets[i](sno, na)
+                    out.append(float(F.mse_loss(agent.critics[i](so, sa), y)))
+                else:
+                    qn = torch.min(agent.critic_targets_1[i](sno, na), agent.critic_targets_2[i](sno, na))
+                    y = rew[a] + (1 - dn[a]) * g * qn
+                    out.append(float(F.mse_loss(agent.critics_1[i](so, sa), y) + F.mse_loss(agent.critics_2[i](so, sa), y)))
+            return tuple(out)
     return None
 
 
@@ -285,7 +302,7 @@ def check_point(p: Partial, task, start, B, mask, rew):
         p.dg(algo, start, step, loss)
         # ---- O1
         if ref is not None:
-            if abs(loss - ref) > 1e-5 * max(1.0, abs(ref)):
+            if not np.allclose(np.asarray(loss, dtype=np.float64), np.asarray(ref, dtype=np.float64), rtol=1e-5, atol=1e-6):
                 p.viol(f"{kp}/loss-not-bellman-definition", f"learn returned {loss}, definition gives {ref} (start={start}, step={step}, mask={mask})", rp,
                        observed=loss, expected=ref)
         # ---- O2
